@@ -384,6 +384,10 @@ func (p *Program) Explore(eng *Engine, fn *ssa.Function, progress func(string)) 
 		if progress != nil {
 			progress(fmt.Sprintf("path %d [%s] %s %s steps=%d", eng.Paths, eng.decisionString(), end.Kind, firstLine(end.Msg), eng.steps))
 		}
+		if end.Kind == "budget" && strings.Contains(end.Msg, "task deadline") {
+			eng.Incomplete = append(eng.Incomplete, "exploration stopped at the time budget: the remaining paths of this task were not explored")
+			break
+		}
 		if !eng.backtrack() {
 			break
 		}
